@@ -15,7 +15,8 @@ META = {
         'construction or slicing).  Overridden read-only mixins (__contains__, index, count, __iter__) must be the list operation on _row; answering from the id index is a violation (one row per id).  Not decided: lock-step comparison with a list as an execution.'
         ' Also (D1): a Grid.pop override is the mixin spelled out (read at index, delete at index); removal by value is a violation.'
         ' Also (D1): explicit index range tests in the primitives equal the list rule -len <= i < len (decision table).'
-        ' Also (D1): the store of __setitem__ is not conditional on comparing the old row with the new one; mapping overrides of the ordered maps (slice headers).'),
+        ' Also (D1): the store of __setitem__ is not conditional on comparing the old row with the new one; mapping overrides of the ordered maps (slice headers).'
+        ' Round 9: (D1) an override answered from the id index is recognised through local variables.'),
     'rule_text': 'obligations = 5 primitives + slice/number/else branches + mixin table + 2 refusal orders + one '
                  'nullness obligation per Grid method that touches _index',
     'trusted_base': ['collections.abc.MutableSequence mixin methods reduce to the five primitives '
